@@ -205,6 +205,13 @@ def gen_union(rng, view, cfg, depth, norec=False) -> dict:
             inner = {"k": "int"}
         sp = rng.choice(["optional", "pipe", "typing"])
         return {"k": "union", "sp": sp, "a": [inner, {"k": "none"}]}
+    if r < 0.57 and cfg.temporal:
+        # one family: the same text is offered to several temporal parsers in turn, and the
+        # rightful member is often not the first
+        members = [{"k": k} for k in rng.sample(["date", "dt", "time", "td"], rng.randint(2, 3))]
+        if rng.random() < 0.3:
+            members.append({"k": rng.choice(["str", "int", "none"])})
+        return {"k": "union", "sp": rng.choice(["pipe", "typing"]), "a": members}
     n = rng.randint(2, 4)
     members = []
     seen = set()
